@@ -28,8 +28,8 @@ def run(tier, seed):
             rep.add(ob)
     from ..replay import sim_native
     rep.bounded_is_supplementary = True
-    rep.add(util.native_ob('native:generation-recurrence-oracle', 'EoN/simulation.py:discrete_SIR', sim_native.c12_native,
-                           '4 graphs x 4 deterministic rules x 4 seed/recovered placements x tmin in {0,3,-2}: per-node histories vs BFS layers, rows, a recovery rule, the Bernoulli rule with a scripted random source'))
+    rep.add(util.native_ob('native:generation-recurrence-oracle', 'EoN/simulation.py:discrete_SIR / basic_discrete_SIS / basic_discrete_SIR / percolate_network', sim_native.c12_native,
+                           '4 graphs x 4 deterministic rules x 4 seed/recovered placements x tmin in {0,3,-2}: per-node histories vs BFS layers, rows, a recovery rule, the Bernoulli rule with a scripted random source; basic_discrete_SIS / basic_discrete_SIR / percolate_network: one uniform draw per infectious-susceptible contact (per edge), a single success moved over every draw position infects exactly that contact\'s target (keeps exactly that edge), infectious nodes are S (SIS) / R (SIR) one step later'))
     rep.explanation = ('discrete_SIR: the generation loops carry the invariant "new_infecteds = nodes susceptible at step start reached by a '
                        'successful contact from an infectious node" (the BFS layer recurrence in the digraph of successful contacts; the rule is '
                        'asked with (u, v, *args) and only about susceptible v), every infectious node recovers after one step unless the recovery '
@@ -38,6 +38,6 @@ def run(tier, seed):
     rep.assumptions += ['M (cited): the layer recurrence gives infection time = tmin + BFS distance; independent Bernoulli(p) contacts give the Reed-Frost chain',
                         'the transmission rule is a function of the ordered pair within a step (it is asked at most once per pair per step)',
                         'distinct / disjoint initial sets; rho not combined with initial_recovereds']
-    rep.not_covered += ['basic_discrete_SIS loop is not under contract yet; percolate_network: same nodes, symmetric sub-graph of G, each edge decided by its own U01 draw compared with p',
+    rep.not_covered += ['basic_discrete_SIS loop is not under unbounded contract (bounded scripted-draw check only); percolate_network: same nodes, symmetric sub-graph of G, each edge decided by its own U01 draw compared with p',
                         'return_full_data=True paths of discrete_SIR']
     return rep, util.native_replayer
